@@ -1,7 +1,8 @@
 import TmcgProofs.VtmfOpen
+import TmcgProofs.TmcgOpen
 /-
   C01 — Opening a masked card returns the type it was created with.
-  Part 1: discrete-log encoding (the quadratic-residuosity encoding is in C01b.lean).
+  Both card encodings: discrete-log (VTMF) and quadratic residuosity (Schindelhauer).
 -/
 namespace Tmcg.C01
 open Tmcg Tmcg.Vtmf Tmcg.Grp Tmcg.VtmfOpen
@@ -56,6 +57,39 @@ theorem remask_preserves_plain (hG : ValidGroup G) (S : State) (X : Int)
     haveI := fact_prime hG
     ∃ c', remask S c r tap = .ok c' ∧ plain G X c' = plain G X c ∧ toF G c'.c1 ≠ 0 :=
   VtmfOpen.remask_preserves_plain hG S X hS hTg hTh hh c hc1 r hr tap
+
+/-! ### quadratic-residuosity encoding -/
+
+open Tmcg.TmcgCard Tmcg.TmcgOpen in
+/-- Second encoding: for every number of players, `w`, type and chain of maskings with fitting
+    secrets (units `r`, `b`-columns XOR to zero — what `TMCG_CreateCardSecret` produces, see
+    `tmcg_secret_columns`), the XOR of the players' residuosity bits reproduces the type. -/
+theorem tmcg_open_correct (keys : List SecKey) (hne : keys ≠ []) (hkeys : ∀ k ∈ keys, KeyOk k)
+    (w T : Nat) (hT : T < 2 ^ w) (secrets : List CardSecret)
+    (hs : ∀ cs ∈ secrets, SecretOk keys w cs) :
+    ∃ c, secrets.foldlM (fun c cs => maskCard (keys.map (·.pub)) c cs)
+        (createOpenCard (keys.map (·.pub)) w T) = .ok c ∧
+      openCard c keys w = T :=
+  TmcgOpen.tmcg_open_correct keys hne hkeys w T hT secrets hs
+
+open Tmcg.TmcgCard Tmcg.TmcgOpen in
+/-- whatever bits are drawn for the other rows, after the XOR fix-up of row `index` every column
+    of `b` XORs to zero -/
+theorem tmcg_secret_columns (b : Matrix) (index w : Nat) (hi : index < b.length)
+    (hcols : ∀ row ∈ b, row.length = w) (j : Nat) (hj : j < w) :
+    xorBits ((fixupB b index w).map fun row => lowBit (row.getD j 0)) = false :=
+  fixupB_col_xor b index w hi hcols j hj
+
+open Tmcg.TmcgCard Tmcg.TmcgOpen in
+/-- the executable binary Jacobi algorithm used for the residuosity test is the Jacobi symbol -/
+theorem jacobi_is_jacobiSym (a : Int) (n : Nat) (hn : n % 2 = 1) : jacobi a n = jacobiSym a n :=
+  jacobi_eq_jacobiSym a n hn
+
+open Tmcg.TmcgCard Tmcg.TmcgOpen in
+/-- non-vacuity: m = 7·11, y = 6 is a non-residue modulo 7 and modulo 11 -/
+example : KeyOk ⟨⟨77, 6⟩, 7, 11⟩ :=
+  { p_pos := by decide, q_pos := by decide, p_prime := by decide, q_prime := by decide,
+    p_odd := by decide, q_odd := by decide, m_eq := by decide, y_nqr_p := by decide, y_nqr_q := by decide }
 
 /-- non-vacuity: three players over p = 23, q = 11, g = 2, a private card of type 5 re-masked
     four times (one negative exponent), opened by player 1 -/
